@@ -16,7 +16,8 @@ class C04(Prop):
     trace_module = "Trace_Bytes"
     rule = ("inputs: every byte string of length 0..1 and (thorough: all, quick: a seeded sample of) length 2, every "
             "single-bit flip of frames pinned by the repository, random strings up to 4 KiB, upper/mixed-case spellings "
-            "and non-hex texts; each input is signed twice (determinism). distinct = distinct (input, outcome) events; "
+            "and non-hex texts; each input is signed twice (determinism); a shuffled second pass interleaves valid and invalid inputs and "
+            "repeats earlier ones (history independence). distinct = distinct (input, outcome) events; "
             "non-trivial = input not the empty string")
     assumptions = [
         "Bytes!Crc16 is the CRC-16/CCITT of the statement: MC_Bytes checks it against the bitwise definition on all 65,793 "
@@ -61,6 +62,17 @@ class C04(Prop):
             n = rng.randrange(1, 40)
             bad.append("".join(rng.choice("0123456789abcdefABCDEFgxz -:") for _ in range(n)))
         texts += bad
+        # history: a shuffled second pass over a sample, valid and invalid inputs interleaved, every input repeated later -
+        # what the signer did before must not matter
+        sample = rng.sample(texts, min(len(texts), ctx.pick(1500, 20000)))
+        again = []
+        for k, t in enumerate(sample):
+            again.append(t)
+            if k % 7 == 3:
+                again.append(rng.choice(bad))
+            if k % 5 == 2:
+                again.append(sample[rng.randrange(k + 1)])
+        texts += again
         per = 400
         return [{"texts": texts[i:i + per]} for i in range(0, len(texts), per)]
 
